@@ -9,6 +9,7 @@ post seed=… posters=… m=… q=… keys=…  ⇥ posters=<b> close=<b> panic=
 suspend …                              ⇥ <ok|suspend-hang|…> posters=<b> close=<b> panic="…" leak=<n>
 fullclose … | sigclose … | dblclose …  ⇥ <outcome> … leak=<n>
 race <group>                           ⇥ races=<n> …
+lostkey seed=… variant=v               ⇥ ctl=<keys> got=<keys> pos=r,c seq=<hex>   (keys shaped like a cursor-position report around a query given up / answered / absent)
 cycles seed=… ops=SRSRC gate=g keys=k q=…  ⇥ S:ret,done R S:ret,done … (one observation per call of the main goroutine)
 ```
 model-canon: what the LTS of `Model/Conc.lean` allows (shutdown completes and nothing is left when the
@@ -187,6 +188,17 @@ def step (line : String) : String :=
       else if leak != "0" then s!"FAIL {leak} library goroutine(s) left after Suspend concurrent with Close"
       else "ok"
     s!"ok leak=0\t{out} leak={leak}\t{verdict}"
+  | "lostkey" :: _ =>
+    -- "no lost events" for terminal input around a cursor-position query that was given up / answered /
+    -- never issued: the input goroutine's `deliver` label of `USys` hands a reply to a requester only
+    -- while a request is open and otherwise posts the sequence (C10Use.no_lost_event_all_actors); the
+    -- control run (same input, no query) is the reference
+    let ctl := (kv fi "ctl").getD "?"; let got := (kv fi "got").getD "?"
+    let verdict :=
+      if ctl == "?" || ctl == "-" || ctl == "error-new" then "FAIL lostkey: the control run delivered nothing"
+      else if got == ctl then "ok"
+      else s!"FAIL a key event sent by the terminal was lost or altered after a cursor-position query (delivered {got}; the same input without a pending query delivers {ctl})"
+    s!"delivered={ctl}\tdelivered={got}\t{verdict}"
   | "dblclose" :: _ =>
     let out := fi.headD "?"
     let verdict := if out == "close-ok" then "ok" else s!"FAIL concurrent Close calls: {out}"
